@@ -448,7 +448,10 @@ def san(n):
 class Emitter:
     def __init__(s, M):
         s.M = M; s.typedefs = collections.OrderedDict(); s.lit = {}; s.done_struct = set(); s.struct_order = []
-        s.out_fn = []; s.need = []; s.helpers = set()
+        s.out_fn = []; s.need = []; s.helpers = set(); s.loop_hooks = []
+    def fn_id(s, name):
+        import hashlib
+        return hashlib.sha1(name.encode()).hexdigest()[:8]
     # ---- types
     def resolve(s, t):
         while isinstance(t, Named): t = s.M.types[t.n]
@@ -630,8 +633,40 @@ class Emitter:
             out.append('goto L_%s;' % san(to))
             return ' '.join(out)
         unwinds = f.attrs_text
+        # ---- natural loops: back edge = edge to a dominating block
+        succ = {}
+        for bn, ins in f.blocks.items():
+            t = ins[-1] if ins else None
+            ss = []
+            if t is not None:
+                if t.op == 'br': ss = [t.t] + ([t.f] if t.cond is not None else [])
+                elif t.op == 'switch': ss = [t.default] + [l for _, l in t.cases]
+                elif t.op == 'invoke': ss = [t.normal, t.unwind]
+            succ[bn] = ss
+        names = list(f.blocks.keys())
+        allb = set(names); dom = {b: set(allb) for b in names}
+        if names: dom[names[0]] = {names[0]}
+        preds = collections.defaultdict(list)
+        for b, ss in succ.items():
+            for x_ in ss: preds[x_].append(b)
+        ch = True
+        while ch:
+            ch = False
+            for b in names[1:]:
+                ps = [dom[p_] for p_ in preds[b] if p_ in dom]
+                nd = (set.intersection(*ps) if ps else set()) | {b}
+                if nd != dom[b]: dom[b] = nd; ch = True
+        backedges = set((b, h) for b, ss in succ.items() for h in ss if h in dom.get(b, ()))
+        heads = set(h for _, h in backedges)
+        fid = s.fn_id(f.name)
+        for h in heads: s.loop_hooks.append((fid, san(h), s.M.dem.get(f.name, f.name)))
+        _goto = goto
+        def goto(frm, to, _g=_goto):
+            if (frm, to) in backedges: return 'VERIF_LOOP_BACK_%s_%s; ' % (fid, san(to)) + _g(frm, to)
+            return _g(frm, to)
         for bn, ins in f.blocks.items():
             L.append('L_%s: ;' % san(bn))
+            if bn in heads: L.append('VERIF_LOOP_HEAD_%s_%s;' % (fid, san(bn)))
             for x in ins:
                 r = 'v_' + san(x.res) if x.res else None
                 if x.op == 'alloca':
@@ -962,6 +997,10 @@ def main():
         o.append(d)
     for nm, d in E.struct_order: emit_struct(nm)
     o.append('#include "verif_rt2.h"')
+    for fid, lab, dem in E.loop_hooks:
+        o.append('/* loop %s_%s in %s */' % (fid, lab, dem[:200].replace('*/', '* /')))
+        for k in ('HEAD', 'BACK'):
+            o.append('#ifndef VERIF_LOOP_%s_%s_%s\n#define VERIF_LOOP_%s_%s_%s ((void)0)\n#endif' % (k, fid, lab, k, fid, lab))
     o.extend(body)
     print('\n'.join(o))
     print('translated %d functions, %d failed' % (sum(1 for c in done.values() if c), sum(1 for c in done.values() if not c)), file=sys.stderr)
